@@ -150,7 +150,7 @@ func init() {
 		Floor: 50,
 		Bound: func(tier string) string {
 			k, e := coreK(tier)
-			return fmt.Sprintf("k=%d focus units, %d skeletons, %d elements per slice, all visit orders", k, len(coreSkeletons(tier)), e)
+			return thoroughPrefix(tier) + fmt.Sprintf("k=%d focus units, %d skeletons, %d elements per slice, all visit orders", k, len(coreSkeletons(tier)), e)
 		},
 		Assumptions: []string{"toMap keys follow zog tag → schema key; leaves are presented with their native Go types", "schemas without Preprocess and without PostTransforms"},
 		Items: func(tier string) []Item {
